@@ -383,7 +383,7 @@ impl PackageBuilder {
             desc: "no parent directory found",
         })?;
 
-        let (cpio_path, dir) = if dest.starts_with('.') {
+        let dir = if dest.starts_with('.') {
             // strip_prefix() fails for destinations like "./" whose parent is empty
             let parent = parent
                 .strip_prefix(".")
@@ -391,15 +391,9 @@ impl PackageBuilder {
                     path: dest.clone(),
                     desc: "no parent directory found",
                 })?;
-            (
-                dest.to_string(),
-                format!("/{}/", parent.to_string_lossy()),
-            )
+            format!("/{}/", parent.to_string_lossy())
         } else {
-            (
-                format!(".{}", dest),
-                format!("{}/", parent.to_string_lossy()),
-            )
+            format!("{}/", parent.to_string_lossy())
         };
         // a file directly under the root: the directory is "/", not "//"
         let dir = if dir == "//" { "/".to_string() } else { dir };
@@ -413,6 +407,10 @@ impl PackageBuilder {
             })?
             .to_string_lossy()
             .to_string();
+
+        // the archive entry must be named exactly "." + directory + base name, as the header records it
+        // (the destination text may differ from that, e.g. "//a", "/a/./b" or "/a/b/")
+        let cpio_path = format!(".{}{}", dir, base_name);
 
         let mut hasher = sha2::Sha256::default();
         hasher.update(&content);
